@@ -261,15 +261,11 @@ int _vnacal_new_add_common(vnacal_new_add_arguments_t vnaa)
     const int b_rows = vnaa.vnaa_b_rows;
     const int b_columns = vnaa.vnaa_b_columns;
     const int b_diagonals = MIN(b_rows, b_columns);
-    const int b_cells = vnaa.vnaa_m_is_diagonal ?
-	b_diagonals : b_rows * b_columns;
     const int *const s_matrix = vnaa.vnaa_s_matrix;
     const int s_rows = vnaa.vnaa_s_rows;
     const int s_columns = vnaa.vnaa_s_columns;
     const int s_diagonals = MIN(s_rows, s_columns);
     const int s_ports = MAX(s_rows, s_columns);
-    const int s_cells = vnaa.vnaa_s_is_diagonal ?
-	s_diagonals : s_rows * s_columns;
     const int *const s_port_map = vnaa.vnaa_s_port_map;
     vnacal_t *const vcp = vnp->vn_vcp;
     const vnacal_layout_t *const vlp = &vnp->vn_layout;
@@ -279,6 +275,20 @@ int _vnacal_new_add_common(vnacal_new_add_arguments_t vnaa)
     const int full_s_columns = VL_S_COLUMNS(vlp);
     const int full_s_ports = MAX(full_s_rows, full_s_columns);
     const int frequencies = vnp->vn_frequencies;
+
+    /*
+     * Number of cells given in the b and s matrices.  Dimensions that
+     * are out of range are rejected below: don't multiply them or size
+     * the arrays that follow from them.
+     */
+    const int b_cells =
+	(b_rows < 1 || b_rows > full_m_rows ||
+	 b_columns < 1 || b_columns > full_m_columns) ? 0 :
+	vnaa.vnaa_m_is_diagonal ? b_diagonals : b_rows * b_columns;
+    const int s_cells =
+	(s_rows < 1 || s_rows > full_s_rows ||
+	 s_columns < 1 || s_columns > full_s_columns) ? 0 :
+	vnaa.vnaa_s_is_diagonal ? s_diagonals : s_rows * s_columns;
 
     /* parameter type: 'T' or 'U' */
     char ptype = '\000';
@@ -290,7 +300,7 @@ int _vnacal_new_add_common(vnacal_new_add_arguments_t vnaa)
     int m_cell_map[MAX(1, MIN(b_cells, full_m_rows * full_m_columns))];
 
     /* map from s_matrix index to vnm_s_matrix index */
-    int s_cell_map[s_cells];
+    int s_cell_map[MAX(1, s_cells)];
 
     /* which VNA ports are connected to the standard */
     bool port_connected[full_s_ports];
